@@ -77,6 +77,14 @@ def run(ctx, replay=None):
         rc, out = ctx.tlc("MCRepo", cfg=name, workers=8, extra=["-coverage", "1"], timeout=1200)
         for m in re.finditer(r"<(\w+) line \d+, col \d+ to line \d+, col \d+ of module Repo(?: \([\d ]+\))?>: (\d+):(\d+)", out):
             acts[m.group(1)] = max(acts.get(m.group(1), 0), int(m.group(3)))
+    # ---- (iv) the domain argument of DESIGN.md 12.4: a corruption invisible to C11's facts makes C11 + C12 unsatisfiable
+    with open(os.path.join(d, "MCRepo_break.cfg"), "w") as f:
+        f.write('CONSTANTS\n  Ents = {"r", "s", "l"}\n  Parent <- ChainParent\n  AltParents <- NoAlt\n  Contents = {0, 1}\n  FlagSets <- DefaultOnly\n  EnvActs <- BreakOnlyEnv\n'
+                '  FaultActs <- AllFault\n  UsesProfile <- LeafProfile\n  MaxEnv = 1\nINIT Init\nNEXT Next\nINVARIANTS ConvergedAfterDefault\nCHECK_DEADLOCK FALSE\n')
+    rc, out = ctx.tlc("MCRepo", cfg="MCRepo_break.cfg", workers=4, timeout=600, ok_codes=(0, 12))
+    if rc != 12 or "ConvergedAfterDefault is violated" not in out:
+        raise CheckError("selftest: with BreakSignature enabled TLC was expected to find ConvergedAfterDefault violated (exit 12), got exit %d" % rc)
+    results["break-signature-makes-C11+C12-unsatisfiable"] = "counterexample found, as expected"
     acts["WriteOKAct"] = acts.get("Step", 0)      # WriteOKAct is the bare Step([name |-> "WriteOK"]) disjunct
     expected = ["EditAct", "TouchAct", "DeleteAct", "TruncateAct", "StripKeyAct", "ResaveAct", "ReplaceAct", "MakeCsrAct", "EditProfileAct", "ExpireAct", "SetIssuerAct", "RemoveConfigAct", "AddConfigAct", "StartRunAct", "WriteOKAct", "SignFailAct",
                 "WriteErrAct", "WriteTornAct", "DieAct"]
